@@ -40,6 +40,7 @@ func init() {
 			{ID: "C16-R16", Title: "errors of object constructors are raised, not pushed as values", Floor: 1, Run: constructorErrorsAreRaised},
 			{ID: "C16-R17", Title: "slice bounds are tested against the same limit", Floor: 1, Run: sliceBoundsShareTheLimit},
 			{ID: "C16-R18", Title: "byte_slice() and buffer() copy the bytes of the value they convert", Floor: 2, Run: conversionsCopyByteStorage},
+			{ID: "C16-R19", Title: "snapshot iterators skip removed keys", Floor: 2, Run: snapshotIteratorsSkipRemovedKeys},
 		},
 	})
 }
